@@ -103,8 +103,13 @@ def run(repo: Repo, rep: Report, tier: str) -> None:
     rep.check({"variable", "line", "source_file", "operation", "details"} <= wkeys, "C20-R3", "the placer writes the keys the formatter reads", str(sorted(wkeys)), bdi.loc())
     ov = [n for n in walk_local(bdi.node) if isinstance(n, ast.Assign) and isinstance(n.targets[0], ast.Subscript) and isinstance(n.targets[0].value, ast.Name) and n.targets[0].value.id in ret_names
           and norm(n.targets[0].slice) == "'variable'" and cbdi.text(n.value) == "op.debug_metadata.get('declared_name')"]
-    ok = bool(ov) and any("user_declared" in t and pol for t, pol in cguards(bdi, ov[0]))
-    rep.check(ok, "C20-R3", "a declared name overrides the node id in the label", "debug_info['variable'] = declared_name under user_declared" if ok else "override missing", bdi.loc(ov[0]) if ov else bdi.loc())
+    gs_ov = cguards(bdi, ov[0]) if ov else []
+    DN = "op.debug_metadata.get('declared_name')"
+    UD = "hasattr(op, 'debug_metadata') and op.debug_metadata and op.debug_metadata.get('user_declared')"
+    extra = [("" if pol else "not ") + t for t, pol in gs_ov if not (pol and t in (DN, UD, "op.debug_metadata.get('user_declared')"))]
+    ok = bool(ov) and any("user_declared" in t and pol for t, pol in gs_ov) and not extra
+    rep.check(ok, "C20-R3", "a declared name overrides the node id in the label", "debug_info['variable'] = declared_name whenever the node is user-declared and has a declared name" if ok else
+              ("override missing" if not ov else f"the override is additionally conditioned on {extra}: a user-declared input can be labelled with another name"), bdi.loc(ov[0]) if ov else bdi.loc())
     det = [n for n in walk_local(bdi.node) if isinstance(n, ast.Assign) and isinstance(n.targets[0], ast.Subscript) and isinstance(n.targets[0].value, ast.Name) and n.targets[0].value.id in ret_names
            and norm(n.targets[0].slice) == "'details'" and any("isinstance(op, IRConst)" == t and pol for t, pol in cguards(bdi, n))]
     alts = cbdi.alts(det[0].value) if det else []
